@@ -324,6 +324,8 @@ impl CoreInner {
 			wal_number
 		);
 
+		#[cfg(surrealkv_verif)]
+		crate::verif::yield_point("flush:table-written");
 		// Step 4: Apply changeset atomically
 		// Lock order: level_manifest → immutable_memtables
 		let mut manifest = self.level_manifest.write()?;
@@ -993,6 +995,8 @@ impl CommitEnv for LsmCommitEnv {
 				log::debug!("apply: arena full, rotating memtable");
 
 				self.core.rotate_memtable()?;
+				#[cfg(surrealkv_verif)]
+				crate::verif::yield_point("apply:rotated");
 
 				// Schedule background flush
 				if let Some(ref task_manager) = self.task_manager {
